@@ -13,7 +13,7 @@ ObsProt(e) == [s \in Stores |-> IF s \in DOMAIN e.prot THEN ToSet(e.prot[s]) ELS
 TraceInit == /\ tid \in 1..Len(Traces) /\ l = 1
              /\ ws = [p \in Paths |-> Traces[tid].init[p]] /\ store = [s \in Stores |-> {}] /\ prot = [s \in Stores |-> {}]
              /\ row = [p \in Paths |-> NoRow] /\ act = [op |-> "Init"] /\ steps = 0
-Step(a) == \/ a.op = "Edit" /\ Edit(a.p, a.c)
+Step(a) == \/ a.op = "Edit" /\ Edit(a.p, a.c, a.how)
            \/ a.op = "Add" /\ Add(a.s, a.how)
            \/ a.op = "Migrate" /\ Migrate(a.s, a.t)
 Match == Have /\ Step(Ev.act) /\ store' = ObsStore(Ev) /\ prot' = ObsProt(Ev) /\ l' = l + 1 /\ UNCHANGED tid
